@@ -527,7 +527,7 @@ def judge_unsafe(ctx, env, step, k, outcome, check, case, new_entries):
     """No entry may appear in the work tree at a path that must be refused under the settings in force."""
     op = step["op"]
     if op in ("reset_mixed", "apply_patch", "stash_push"):
-        return
+        return False
     ntfs, hfs = (True, False) if op == "clone" else (env.ntfs, env.hfs)
     seen = set()
     for rel in sorted(new_entries):
@@ -540,6 +540,7 @@ def judge_unsafe(ctx, env, step, k, outcome, check, case, new_entries):
                 f"entry {rel!r}, a path that must be refused ({cls})",
                 check, case,
             )
+    return bool(seen)
 
 
 def expand_steps(steps):
@@ -561,9 +562,20 @@ def execute(ctx, case, check="seq", record=True):
     env = Env(ctx, case)
     outcomes = []
     refused_path = False
+    violated = False
     try:
         for k, step in enumerate(expand_steps(case["steps"])):
-            if not prepare(env, step):
+            try:
+                ready = prepare(env, step)
+            except HarnessError:
+                raise
+            except Exception as e:
+                if violated:
+                    # an earlier step of this case already broke .git (reported above); the harness cannot go on in it
+                    outcomes.append((step["op"], "skipped"))
+                    break
+                raise HarnessError(f"c17 harness could not prepare step {k} {step['op']}: {type(e).__name__}: {e}") from e
+            if not ready:
                 outcomes.append((step["op"], "skipped"))
                 continue
             before = env.snap if env.snap is not None else env.snapshot()
@@ -586,8 +598,10 @@ def execute(ctx, case, check="seq", record=True):
             entries, links = R.scan_worktree(env.W)
             all_links = dict(env.links)
             all_links.update(links)
-            judge_step(ctx, env, step, k, before, after, outcome, check, case, all_links)
-            judge_unsafe(ctx, env, step, k, outcome, check, case, entries - env.entries)
+            if judge_step(ctx, env, step, k, before, after, outcome, check, case, all_links):
+                violated = True
+            if judge_unsafe(ctx, env, step, k, outcome, check, case, entries - env.entries):
+                violated = True
             env.entries, env.links = entries, links
             if entries:
                 env.materialised += 1
@@ -859,16 +873,39 @@ def _search(ctx, item):
         run_case(ctx, gen(rnd))
 
 
+FLOORS = {  # share of all cases; below it the generator has regressed (harness error in thorough tier)
+    "symlink-then-directory": 0.08, "duplicate-name": 0.06, "dotgit-variant": 0.10, "escaping-symlink": 0.50, "unsafe-name": 0.25,
+    "path-refused": 0.20, "outcome:ok": 0.60, "directory-then-symlink": 0.03, "file-then-directory": 0.02, "slash-in-name": 0.08,
+    "setuid-setgid-sticky": 0.05, "op:clone": 0.08, "op:apply_patch": 0.10, "op:stash_pop_crafted": 0.08, "op:reset_mixed": 0.08,
+}
+
+
 def run(ctx):
+    try:
+        _run(ctx)
+    except BaseException:
+        ctx.cleanup()  # the runner does not remove the scratch directory on a harness error
+        raise
+
+
+def _run(ctx):
     _hermetic_env()
     selftest(ctx)
-    a, b, c = ctx.scale((110, 110, 60), (9000, 9000, 4000))
+    a, b, c = ctx.scale((120, 120, 64), (6000, 6000, 3000))
     items = []
     for _ in range(16):
         items += [("A", a), ("B", b), ("C", c)]
-    # one part per worker slot and round: 48 items dealt round-robin over 16 workers -> every worker runs A, B and C
+    # 48 items dealt round-robin over 16 workers: every worker runs one A, one B and one C block with its own stream
+    before = ctx.evaluations
     ctx.parallel(_search, items)
+    total = ctx.evaluations - before
     ctx.note("parts", "A enumerated CVE shapes (sampled), B free-form trees and sequences, C patch application")
+    low = {l: round(ctx.labels.get(l, 0) / max(total, 1), 3) for l, f in FLOORS.items() if ctx.labels.get(l, 0) < f * total}
+    if low:
+        ctx.note("generator_warning", low)
+        print(f"GENERATOR-WARNING: label shares below their floors: {low}")
+        if ctx.thorough:
+            raise HarnessError(f"c17 generator regression: label shares below their floors: {low}")
 
 
 def replay(ctx, check, case):
